@@ -183,7 +183,43 @@ func (g *Gen) applyContract(ct *Contract, names []string, args []*Val, sig *type
 			decls = append(decls, fmt.Sprintf("(%s %s)", name, sortOfSpecName(bv.Sort)))
 		}
 		body := g.specBool(sub, fd.C.E)
-		g.oblige("pre", fmt.Sprintf("(forall (%s) %s)", strings.Join(decls, " "), body), pos, fmt.Sprintf("precondition schema %s of %s", fd.Name, shortKey(ct.Key)), fd.C.Props)
+		o := g.oblige("pre", fmt.Sprintf("(forall (%s) %s)", strings.Join(decls, " "), body), pos, fmt.Sprintf("precondition schema %s of %s", fd.Name, shortKey(ct.Key)), fd.C.Props)
+		if o != nil {
+			// checked in skolemised form: the bound variables become constants of this obligation, and the caller's own
+			// precondition schemas with the same number of variables are instantiated at them (schemas are passed along)
+			reach := g.reach
+			o.Goal = fmt.Sprintf("(=> %s %s)", reach, body)
+			var skNames []string
+			for _, bv := range fd.Vars {
+				nm := sub.vars[bv.Name].S[0]
+				skNames = append(skNames, nm)
+				o.Extra = append(o.Extra, fmt.Sprintf("(declare-const %s %s)", nm, sortOfSpecName(bv.Sort)))
+			}
+			for _, own := range g.ct.Facts {
+				if len(own.Vars) != len(fd.Vars) {
+					continue
+				}
+				entry := g.entryEnv()
+				okSorts := true
+				for i, bv := range own.Vars {
+					if sortOfSpecName(bv.Sort) != sortOfSpecName(fd.Vars[i].Sort) {
+						okSorts = false
+					}
+					entry.vars[bv.Name] = scalar(sortOfSpecName(bv.Sort), skNames[i], nil)
+				}
+				if !okSorts {
+					continue
+				}
+				mark := len(g.lines)
+				inst := g.specBool(entry, own.C.E)
+				// side facts emitted while evaluating mention the obligation-local constants: move them into the obligation
+				if len(g.lines) > mark {
+					o.Extra = append(o.Extra, g.lines[mark:]...)
+					g.lines = g.lines[:mark]
+				}
+				o.Extra = append(o.Extra, "(assert "+inst+")")
+			}
+		}
 	}
 	// footprint havoc
 	if ct.ModAny {
